@@ -108,6 +108,11 @@ func (cc *compCase) genUse(c *core.Ctx, def compDef, scopeVar string, forceNoSlo
 			if r.Intn(3) == 0 {
 				continue // this slot is not passed
 			}
+			if r.Intn(6) == 0 {
+				// an empty body is a body too: the placeholder renders nothing
+				use.Slots = append(use.Slots, model.SlotBody{Name: s, Body: []model.Stmt{}})
+				continue
+			}
 			body := []model.Stmt{model.Text{S: fmt.Sprintf("body%d.%s", site, s)}}
 			if scopeVar != "" && r.Intn(2) == 0 {
 				body = append(body, model.Text{S: "~"}, model.Print{E: model.Var{Name: scopeVar}})
@@ -153,10 +158,10 @@ func genComponentTree(c *core.Ctx, i int) *compCase {
 				stmts = append(stmts, model.If{Conds: []model.Expr{model.Lit{V: model.Bool(true)}}, Bodies: [][]model.Stmt{{model.Text{S: "(if "}, cc.genUse(c, def, "", false), model.Text{S: ")"}}}})
 			case 1: // inside @each, arguments per pass
 				stmts = append(stmts, model.Each{Var: "item", Arr: model.Var{Name: "da"}, Body: []model.Stmt{model.Text{S: "(each "}, cc.genUse(c, def, "item", false), model.Text{S: ")"}}})
-			case 2: // a use without slots (also after a use with slots)
-				stmts = append(stmts, cc.genUse(c, def, "", true), model.Text{S: "|"})
+			case 2: // a use without slots (also after a use with slots), followed by any text incl. whitespace only
+				stmts = append(stmts, cc.genUse(c, def, "", true), model.Text{S: []string{"|", "\n", "  ", "\n\t", " x"}[r.Intn(5)]})
 			default:
-				stmts = append(stmts, cc.genUse(c, def, "", false), model.Text{S: "|"})
+				stmts = append(stmts, cc.genUse(c, def, "", false), model.Text{S: []string{"|", "\n", " ", "|"}[r.Intn(4)]})
 			}
 		}
 		cc.tree.files[name] = stmts
@@ -183,9 +188,8 @@ func init() {
 		Rule: "cases are template directories written to disk: 1..2 component files (0..2 arguments used in text and in conditions, 0..3 slot placeholders incl. the default slot, a surrounding variable printed inside) and 1..3 pages with 1..4 uses each - the same component several times with different arguments and slot bodies, uses without slots after uses with slots, uses inside @if, inside @each with per-pass arguments, inside an insert block of a layout page, '~name' and full spelling, argument values that name surrounding variables which are also keys of the same call; every use site has unique argument values and slot sentinels and every argument is wrapped in a tracer probe. " +
 			"Oracles: output vs the model, tracer log (each argument evaluated once per evaluation of its use site, at the place of use), the verif hook VerifShared()==0 (no AST node reachable from two use sites). Fault trees: undeclared slot, slot passed twice (named and default), missing component file - reported by NewTemplate, naming the component. distinct_nontrivial = distinct trees (by sources)",
 		Assumptions: []string{
-			"slot placeholders sit at the top level of a component file and slot bodies hold at least one byte of text (nested placeholders and empty bodies are outside what the statement describes)",
+			"slot placeholders sit at the top level of a component file (nested placeholders are outside what the statement describes); slot bodies may be empty",
 			"argument names that collide in type with a visible variable are an error (C04) and are generated with matching types here",
-			"text after a slot-less component starts with a non-whitespace byte",
 		},
 		Setup: func(c *core.Ctx) {
 			if err := registerTracers(); err != nil {
